@@ -143,28 +143,47 @@ pub fn run_case(cx: &mut Ctx) {
                     let marker = rng.next_u64();
                     let started = Instant::now();
                     let nap = if rng.chance(1, 2) { rng.below(200) } else { 0 };
+                    // sometimes the timed closure itself uses the local histogram it is timed by
+                    let reenter = rng.chance(1, 3);
+                    let on_local = rng.chance(1, 2);
+                    let l0 = &locals[0];
+                    let mut inner_observations = 0u64;
                     let work = || {
                         if nap > 0 {
                             std::thread::sleep(Duration::from_micros(nap));
                         }
+                        if reenter && on_local {
+                            l0.observe(0.25);
+                            let t = l0.start_timer();
+                            t.observe_duration();
+                            inner_observations = 2;
+                        }
                         marker
                     };
-                    let r = if rng.chance(1, 2) { h.observe_closure_duration(work) } else { locals[0].observe_closure_duration(work) };
+                    let r = if on_local { l0.observe_closure_duration(work) } else { h.observe_closure_duration(work) };
+                    // the inner local timer reaches the shared histogram at once, the inner observe stays pending
+                    if inner_observations == 2 {
+                        local_own[0] += 1;
+                        count += 1;
+                        log.push("  (the closure observed on local0 and ran a local timer of local0)".into());
+                    }
                     if r != marker {
                         cx.violation("closure-result-not-returned", site, format!("observe_closure_duration returned {} instead of {}", r, marker), jobj! {"history" => log.clone()});
                         return;
                     }
                     let _ = started;
-                    // through the shared histogram it is visible at once; through a local handle it waits for the flush
-                    log.push("observe_closure_duration".into());
-                    let (c_now, _) = snapshot(&h);
-                    if c_now == c_before {
+                    log.push(format!("observe_closure_duration on {}", if on_local { "local0" } else { "the shared histogram" }));
+                    if on_local {
+                        // the closure's own observation is pending on local0 (together with anything it observed
+                        // itself): flush it now so the shared count can be compared
+                        local_own[0] += 1;
                         locals[0].flush();
                         log.push("local0.flush()".into());
                         pending_flushed = local_own[0];
                         local_own[0] = 0;
+                    } else {
+                        expect_delta = 1;
                     }
-                    expect_delta = 1;
                     started_at = Some(started);
                 }
                 12 => {
